@@ -414,6 +414,25 @@ func (v *PacketDslVisitorImpl) VisitInerObjectField(ctx *gen.InerObjectFieldCont
 		f := fld.(*model.Field)
 		subFields = append(subFields, f)
 	}
+	// link match fields to their key field inside the nested object
+	subFieldMap := make(map[string]*model.Field)
+	for _, f := range subFields {
+		subFieldMap[f.Name] = f
+	}
+	for _, f := range subFields {
+		if mf, ok := f.Attr.(*model.MatchFieldAttribute); ok {
+			key, ok := subFieldMap[mf.MatchKeyField.Name]
+			if !ok {
+				v.BinModel.AddSyntaxError(&model.SyntaxError{
+					Line:   ctx.GetStart().GetLine(),
+					Column: ctx.GetStart().GetTokenSource().GetCharPositionInLine(),
+					Msg:    "Unknown match key field " + mf.MatchKeyField.Name + " for field " + f.Name,
+				})
+				continue
+			}
+			mf.MatchKeyField = key
+		}
+	}
 	// Construct nested Packet model
 	p := model.Packet{
 		Name:   name,
